@@ -88,6 +88,19 @@ Section StmtFacts.
   Proof. intro H. unfold run_body. erewrite interp_bind_raise by exact H. reflexivity. Qed.
   Lemma run_body_oof n (s : stmt) e d w : I n (s e) w = OutOfFuel -> I n (run_body s e d) w = OutOfFuel.
   Proof. intro H. unfold run_body. apply interp_bind_oof. exact H. Qed.
+  Lemma seq_susp n (a b : stmt) e w v k w1 :
+    I n (a e) w = Susp v k w1 -> exists k', I n (s_seq a b e) w = Susp v k' w1.
+  Proof. intro H. unfold s_seq. eapply interp_bind_susp_inv. exact H. Qed.
+  Lemma yield_susp n (p : env -> value) e w :
+    exists k, I n (s_yield (R:=R) p e) w = Susp (p e) k w.
+  Proof. unfold s_yield. rewrite interp_yield. eexists; reflexivity. Qed.
+  Lemma while_iter_raise n m (body : stmt) e w x w1 :
+    I n (body e) w = Done (inr x) w1 -> I n (s_while_true (S m) body e) w = Done (inr x) w1.
+  Proof. intro H. cbn [s_while_true]. erewrite interp_bind_raise by exact H. reflexivity. Qed.
+  Lemma while_iter_susp n m (body : stmt) e w v k w1 :
+    I n (body e) w = Susp v k w1 -> exists k', I n (s_while_true (S m) body e) w = Susp v k' w1.
+  Proof. intro H. cbn [s_while_true]. eapply interp_bind_susp_inv. exact H. Qed.
+
   (* walking a function body statement by statement, whatever the rest does (it may suspend) *)
   Lemma run_body_seq_normal n (a b : stmt) e d w e1 w1 :
     I n (a e) w = Done (inl (CNormal, e1)) w1 -> I n (run_body (s_seq a b) e d) w = I n (run_body b e1 d) w1.
